@@ -127,6 +127,10 @@ def glr_grammar_worker(args):
             key["ignore_case"] = True
         if list_input:
             key["input_kind"] = "list"
+        if params.get("lexdis"):
+            key["lexical_disambiguation"] = True
+        if params.get("custom_recognition"):
+            key["custom_token_recognition"] = "identity wrapper"
         key.update(extra)
         res["violations"].append((monitor, key, detail,
                                   {"family": "glr", "pid": pid, "prods": prods, "params": params}))
@@ -151,6 +155,11 @@ def glr_grammar_worker(args):
             kw["ws"] = None
         if pid == "C17":
             kw["consume_input"] = False
+        if params.get("lexdis"):
+            kw["lexical_disambiguation"] = True
+        if params.get("custom_recognition"):
+            # a custom token recognition callable that only delegates to the built-in one (an identity wrapper)
+            kw["custom_token_recognition"] = lambda head, get_tokens: get_tokens()
         try:
             parser = build(GLRParser, g, tables=kind, **kw)
         except BudgetExceeded:
